@@ -219,6 +219,12 @@ func genNode(r *kit.Rand, kind string) string {
 	return kind
 }
 
+// carriers: nodes that do not transform; the output of the C10 nodes reaches its consumers THROUGH them. On a batch edge
+// behind a per-point node (begin / points / end arrive one by one) they re-buffer every batch with edge.BatchBuffer:
+// log() with one buffer for the whole node, httpOut()/httpPost() with one per group, union() (edge.multiConsumer) with one
+// per parent edge; a batch that arrives buffered (window, groupBy, another carrier) is handed on as it is.
+var carrierPool = []string{"log", "log", "httpOut", "httpPost", "union"}
+
 var streamKinds = []string{"where", "eval", "default", "delete", "shift", "sample", "derivative", "changeDetect", "stateCount", "stateDuration", "flatten", "combine", "groupBy"}
 
 func fieldVal(r *kit.Rand, k string) string {
@@ -322,6 +328,27 @@ func min(a, b int) int {
 	return b
 }
 
+// genCarrier renders a carrier node under `parent` (id = the id the new node gets).
+func genCarrier(r *kit.Rand, parent, id int, isBatch func(int) bool) (string, bool) {
+	switch k := kit.Pick(r, carrierPool); k {
+	case "httpOut":
+		return fmt.Sprintf("httpOut ep=e%d", id), true
+	case "union":
+		var cands []int
+		for j := 0; j < id; j++ {
+			if j != parent && isBatch(j) == isBatch(parent) {
+				cands = append(cands, j)
+			}
+		}
+		if len(cands) == 0 {
+			return "", false
+		}
+		return fmt.Sprintf("union with=%d", kit.Pick(r, cands)), true
+	default:
+		return k, true
+	}
+}
+
 // genCase: a tree of ≤ maxNodes transforming nodes under from(); every 3rd case runs on batch edges (a window in front).
 func genCase(r *kit.Rand, i int, tier string) []string {
 	caseDur = kit.Pick(r, durPool)
@@ -370,6 +397,17 @@ func genCase(r *kit.Rand, i int, tier string) []string {
 			parent = r.Intn(len(infos)) // fork somewhere
 		}
 		kind := kit.Pick(r, streamKinds)
+		if batchMode && r.Chance(1, 3) || !batchMode && r.Chance(1, 8) {
+			// on a batch edge mostly behind a per-point node (the carrier then re-buffers), sometimes straight behind a
+			// node that emits whole batches (window, groupBy, another carrier: handed on untouched)
+			if pk := infos[parent].kind; infos[parent].batch && (pk == "window" || pk == "groupBy" || carrierKinds[pk]) && r.Chance(3, 4) {
+				parent = add(parent, genNode(r, kit.Pick(r, []string{"where", "eval", "shift", "default", "delete", "stateCount", "sample"})), true)
+			}
+			if c, ok := genCarrier(r, parent, len(infos), func(j int) bool { return infos[j].batch }); ok {
+				last = add(parent, c, infos[parent].batch)
+				continue
+			}
+		}
 		if kind == "shift" && infos[parent].kind == "shift" {
 			// `|shift()` directly under a shift node is rejected by the TICKscript evaluator (the property field Shift
 			// hides the chain method) — not a C10 matter
@@ -442,6 +480,20 @@ func directed(r *kit.Rand, k int) []string {
 		{[]string{"node 1 0 groupBy dims=h all=0 excl=- byName=0", "node 2 1 sample n=2 d=0", "node 3 1 sample n=0 d=2000000000", "node 4 0 sample n=3 d=0"},
 			pts("pt m h=a v=i:1 1000000000000", "pt m h=b v=i:2 1000000000000", "pt m h=a v=i:3 1001000000000", "pt m h=a v=i:4 1002000000000", "pt m h=b v=i:5 1003000000000", "pt m h=a v=i:6 1003500000000", "pt m h=b v=i:7 1004000000000")},
 	}
+	// carriers behind per-point nodes on batch edges: several batches of one group in quick succession, each re-buffered by
+	// the carrier (edge.BatchBuffer) and consumed late; later batches not larger than the first, equal, and larger
+	cases = append(cases,
+		d{[]string{"node 1 0 window pc=3 ec=3", "node 2 1 where e=gt,r:v,i:0", "node 3 2 log", "node 4 3 httpPost", "node 5 4 eval e=add,r:v,i:1 as=x tags=- keep=1 keeplist=- quiet=0"},
+			pts("pt m h=a v=i:1 1000000000000", "pt m h=a v=i:2 1001000000000", "pt m h=a v=i:3 1002000000000", "pt m h=b v=i:11 1003000000000", "pt m h=b v=i:12 1004000000000", "pt m h=b v=i:0 1005000000000",
+				"pt m h=c v=i:21 1006000000000", "pt m h=c v=i:22 1007000000000", "pt m h=c v=i:23 1008000000000", "pt m h=a v=i:31 1009000000000", "pt m h=a v=i:32 1010000000000", "pt m h=a v=i:33 1011000000000")},
+		d{[]string{"node 1 0 groupBy dims=h all=0 excl=- byName=0", "node 2 1 window pc=2 ec=2", "node 3 2 shift d=1000000000", "node 4 3 httpOut ep=e4", "node 5 2 eval e=mul,r:v,i:2 as=v tags=- keep=0 keeplist=- quiet=0",
+			"node 6 5 union with=3", "node 7 6 log", "node 8 2 log"},
+			pts("pt m h=a v=i:1 1000000000000", "pt m h=b v=i:2 1000000000000", "pt m h=a v=i:3 1001000000000", "pt m h=b v=i:4 1001000000000", "pt m h=a v=i:5 1002000000000", "pt m h=a v=i:6 1003000000000",
+				"pt m h=b v=i:7 1003000000000", "pt m h=b v=i:8 1004000000000", "pt m h=a v=i:9 1005000000000", "pt m h=a v=i:10 1006000000000", "pt m h=b v=i:11 1006000000000", "pt m h=b v=i:12 1007000000000")},
+		d{[]string{"node 1 0 window p=3000000000 e=3000000000", "node 2 1 default f=w=i:7 t=-", "node 3 2 union with=1", "node 4 2 httpPost", "node 5 4 stateCount e=gt,r:v,i:1 as=c", "node 6 0 log", "node 7 6 union with=0"},
+			pts("pt m h=a v=i:1 1000000000000", "pt m h=a v=i:2 1001000000000", "pt m h=b v=i:3 1002000000000", "pt m h=a v=i:4 1003000000000", "pt m h=a v=i:5 1004000000000", "pt m h=a v=i:6 1004500000000",
+				"pt m h=b v=i:7 1005000000000", "pt m h=a v=i:8 1006000000000", "pt m h=a v=i:9 1009000000000", "pt m h=a v=i:10 1012000000000")},
+	)
 	// sample(7s) / sample(11s) / sample(1w) on points that sit on the boundaries counted from Go's zero time, on the multiples
 	// counted from the Unix epoch (which are NOT boundaries for these durations), and next to them
 	{
